@@ -311,6 +311,76 @@ fn enc_load() {
 }
 
 #[test]
+fn enc_load_history() {
+    // a first load at chunk ccn0, then the reader is moved to chunk ccn and loads again: the second
+    // chunk is accepted iff it is genuine, whatever the first load did
+    let ccn0 = v_u64("ccn0", 3) % 4;
+    let ccn = v_u64("ccn", 1) % 4;
+    let auth0 = v_u64("auth0", 1) == 1;
+    let auth = v_u64("auth", 0) == 1 && (ccn != ccn0 || auth0);
+    let tag_at = v_u64("tag_at", 0).min(15) as usize;
+    let bits = (v_u64("tag_bits", 1) as u8).max(1);
+    let r = catch_unwind(AssertUnwindSafe(|| -> Option<String> {
+        let plain = plain_of(4 * ch() + 2);
+        let mut s = encrypt_stream(&plain);
+        let alter = |s: &mut Vec<u8>, c: u64| {
+            let end = ((c + 1) * cts()) as usize;
+            s[end - 16 + tag_at] ^= bits;
+        };
+        if !auth0 {
+            alter(&mut s, ccn0);
+        }
+        if !auth && ccn != ccn0 {
+            alter(&mut s, ccn);
+        }
+        let second_genuine = if ccn == ccn0 { auth0 } else { auth };
+        let mut l = EncryptionLayerInternal::new(Box::new(Throttle7 { c: Cursor::new(s), reads: 0, on: false }), &reader_cfg(false)).unwrap();
+        l.inner.c.set_position(ccn0 * cts());
+        l.current_chunk_number = ccn0 as u32;
+        let _ = l.load_in_cache();
+        l.inner.c.set_position(ccn * cts());
+        l.current_chunk_number = ccn as u32;
+        match l.load_in_cache() {
+            Ok(Some(())) if second_genuine => {
+                let off = (ccn * ch()) as usize;
+                if l.chunk_cache.get_ref()[..] != plain[off..off + ch() as usize] {
+                    return Some(format!("chunk {ccn} loaded after chunk {ccn0} decrypts to bytes that differ from the plaintext"));
+                }
+                None
+            }
+            Ok(Some(())) => Some(format!("after a load of chunk {ccn0} ({}), chunk {ccn} whose tag was altered (byte {tag_at}) was accepted: {} bytes exposed", if auth0 { "genuine" } else { "altered" }, l.chunk_cache.get_ref().len())),
+            Ok(None) => Some(format!("load of chunk {ccn} returned None inside the stream")),
+            Err(_) if !second_genuine => {
+                if l.chunk_cache.get_ref().is_empty() { None } else { Some("bytes of a rejected chunk left in the cache".to_string()) }
+            }
+            Err(e) => Some(format!("genuine chunk {ccn} rejected after a load of chunk {ccn0}: {e:?}")),
+        }
+    }));
+    report(r);
+}
+
+#[test]
+fn enc_fs_new_empty() {
+    let r = catch_unwind(AssertUnwindSafe(|| -> Option<String> {
+        for unauth in [false, true] {
+            let rd = EncryptionLayerFailSafeReader::new(Box::new(RawLayerFailSafeReader::new(Cursor::new(Vec::new()))), &reader_cfg(unauth));
+            match rd {
+                Ok(mut rd) => {
+                    let mut buf = [0u8; 8];
+                    match rd.read(&mut buf) {
+                        Ok(0) => {}
+                        other => return Some(format!("read on an empty encrypted stream returned {other:?}")),
+                    }
+                }
+                Err(e) => return Some(format!("the repair reader (unauthenticated mode: {unauth}) cannot be built over an empty stream (archive cut right after its header): {e:?}")),
+            }
+        }
+        None
+    }));
+    report(r);
+}
+
+#[test]
 fn enc_load_unauth() {
     let q = v_u64("q", 0);
     let n = v_u64("n", 0);
